@@ -763,7 +763,7 @@ def run(ctx):
     rs.CURRENT_PID = ctx.pid
     t0 = time.time()
     items = plan(ctx)
-    deadline = t0 + ctx.scale(17.0, 270.0)
+    deadline = t0 + ctx.scale(17.0, 270.0) * max(1.0, ctx.budget_s / float(ctx.scale(25, 420)))
     root = ctx.tmpdir()
     args = [(ctx.repo, it, ctx.seed, deadline, os.path.join(root, "w%d" % n)) for n, it in enumerate(items)]
     results = []
